@@ -36,3 +36,8 @@ pub mod solvers;
 pub mod sat;
 
 pub mod utils;
+
+/// Hooks for the external verification harnesses (feature `verif-hooks`, off by default).
+#[cfg(feature = "verif-hooks")]
+#[allow(missing_docs)]
+pub mod verif_hooks;
